@@ -198,16 +198,6 @@ def errorProtoToString : ThisKind → Option String
   | .object n m => some (errorToString n m)
   | _ => none
 
-def errObsDevs (r : Route) (ctor : String) (arg : Option String) : List String :=
-  (if arg = some "" then ["msg_empty_string_undefined"] else []) ++
-  (if ctor = "Error" then ["error_own_name"] else []) ++
-  (if r = .call ∧ isNativeSub ctor then ["ctor_call_native_frame"] else [])
-
-def engineMsgDevs : EngineMsg → List String
-  | .evalToken t => if t.toList.contains '%' then ["msg_format_verbs"] else []
-  | .jsonChar c => if c.toList.contains '%' then ["msg_format_verbs"] else []
-  | _ => []
-
 /-! ## deviation regions: decidable predicates over a request (used by the driver and as theorem hypotheses) -/
 
 /-- is the innermost activation a native one? -/
